@@ -74,7 +74,7 @@ def cases(tier: str, seed: int) -> List[Dict[str, Any]]:
     # is deterministic whichever worker runs it, and history dependence is caught
     W = WIRING[tier]
     out.append({"kind": "wiring", "L": 1, "m": [1, 1], "r": [1, 1],
-                "Ls": list(range(1, W + 1)) + list(range(W, 0, -3))})
+                "Ls": list(range(1, W + 1)) + list(range(W, 0, -3)), "fresh": True})
     # history: ONE rule object queried for several depths in sequence must answer like a
     # fresh one (the default rule object is shared by every TransformerStack/Decoder)
     seqs = [[a, b, a] for a in (1, 2, 3, 5, 8) for b in (1, 2, 4, 7, 16) if a != b]
